@@ -402,33 +402,71 @@ def normSuccs (l : List (Nat × Option Expr)) : List (Nat × Option Expr) := nor
 def normalize (tb : List (Nat × BTR)) : List (Nat × BTR) :=
   tb.map (fun p => (p.1, { p.2 with succs := normSuccs p.2.succs }))
 
-/-- `tb'` requests the same transfers as `tb`, except that two differently guarded requests of `tb` for one pair
-    of instructions may appear in `tb'` as ONE request guarded by their disjunction (or by nothing) -/
+/-- `g` is a disjunction (any nesting) of guards satisfying `R`; `ls` = those guards, left to right -/
+inductive OrTree (R : Expr → Prop) : Expr → List Expr → Prop where
+  | leaf {c : Expr} : R c → OrTree R c [c]
+  | node {l r : Expr} {ls rs : List Expr} : OrTree R l ls → OrTree R r rs → OrTree R (.bin .or l r) (ls ++ rs)
+
+/-- executable decomposition of a disjunction into guards from the list `R` -/
+def orLeaves (R : List Expr) : Expr → Option (List Expr)
+  | .bin op l r =>
+    if R.contains (.bin op l r) then some [.bin op l r]
+    else match op with
+      | .or => (match orLeaves R l, orLeaves R r with
+          | some a, some b => some (a ++ b)
+          | _, _ => none)
+      | _ => none
+  | e => if R.contains e then some [e] else none
+
+/-- the guards requested for the pair (a, b) -/
+def pairGuards (r : List (Nat × Nat × Option Expr)) (a b : Nat) : List Expr :=
+  (r.filter (fun q => q.1 == a && q.2.1 == b)).filterMap (·.2.2)
+
+/-- `tb'` requests the same transfers as `tb`, except that differently guarded requests of `tb` for one pair of
+    instructions may appear in `tb'` as a request guarded by a disjunction of them (any nesting), or by nothing -/
 structure MergedOf (tb tb' : List (Nat × BTR)) (manual : List ManualEdge) : Prop where
-  /-- every request of `tb'` is a request of `tb` or the disjunction of two -/
-  back : ∀ q ∈ reqList tb' manual, q ∈ reqList tb manual ∨
-    ∃ c₁ c₂, q.2.2 = some (.bin .or c₁ c₂) ∧ (q.1, q.2.1, some c₁) ∈ reqList tb manual ∧
-      (q.1, q.2.1, some c₂) ∈ reqList tb manual
-  /-- every request of `tb` is a request of `tb'`, or absorbed by an unconditional one, or a disjunct of one -/
-  forth : ∀ q ∈ reqList tb manual, q ∈ reqList tb' manual ∨ (q.1, q.2.1, none) ∈ reqList tb' manual ∨
-    ∃ c c', q.2.2 = some c ∧ (q.1, q.2.1, some c') ∈ reqList tb manual ∧
-      ((q.1, q.2.1, some (.bin .or c c')) ∈ reqList tb' manual ∨ (q.1, q.2.1, some (.bin .or c' c)) ∈ reqList tb' manual)
+  /-- an unconditional request of `tb'` is one of `tb`; a guarded one is a disjunction of guards requested by `tb` -/
+  back : ∀ q ∈ reqList tb' manual,
+    (q.2.2 = none → q ∈ reqList tb manual) ∧
+    (∀ g, q.2.2 = some g → ∃ ls, OrTree (fun c => (q.1, q.2.1, some c) ∈ reqList tb manual) g ls)
+  /-- every request of `tb` is absorbed by an unconditional request of `tb'` or is a disjunct of a request of `tb'` -/
+  forth : ∀ q ∈ reqList tb manual, (q.1, q.2.1, none) ∈ reqList tb' manual ∨
+    ∃ c g ls, q.2.2 = some c ∧ (q.1, q.2.1, some g) ∈ reqList tb' manual ∧
+      OrTree (fun c => (q.1, q.2.1, some c) ∈ reqList tb manual) g ls ∧ c ∈ ls
 
 /-- executable form of `MergedOf` (driver) -/
 def mergedOfB (tb tb' : List (Nat × BTR)) (manual : List ManualEdge) : Bool :=
   let r := reqList tb manual
   let r' := reqList tb' manual
-  r'.all (fun q => r.contains q ||
+  r'.all (fun q =>
+    match q.2.2 with
+    | none => r.contains q
+    | some g => (orLeaves (pairGuards r q.1 q.2.1) g).isSome) &&
+  r.all (fun q => r'.contains (q.1, q.2.1, none) ||
     (match q.2.2 with
-     | some (.bin .or c₁ c₂) => r.contains (q.1, q.2.1, some c₁) && r.contains (q.1, q.2.1, some c₂)
-     | _ => false)) &&
-  r.all (fun q => r'.contains q || r'.contains (q.1, q.2.1, none) ||
-    (match q.2.2 with
-     | some c => r.any (fun q₂ => q₂.1 == q.1 && q₂.2.1 == q.2.1 &&
-         (match q₂.2.2 with
-          | some c' => r'.contains (q.1, q.2.1, some (.bin .or c c')) || r'.contains (q.1, q.2.1, some (.bin .or c' c))
+     | some c => r'.any (fun q' => q'.1 == q.1 && q'.2.1 == q.2.1 &&
+         (match q'.2.2 with
+          | some g => (match orLeaves (pairGuards r q.1 q.2.1) g with | some ls => ls.contains c | none => false)
           | none => false))
      | none => false))
+
+/-- the guard falcon's assembly ends up with on the edge for the pair (a, b): among link and manual requests the
+    first wins, successor requests are merged in -/
+def finalGuard (tb : List (Nat × BTR)) (manual : List ManualEdge) (a b : Nat) : Option (Option Expr) :=
+  let same := fun (q : Nat × Nat × Option Expr) => q.1 == a && q.2.1 == b
+  let early := (reqLinks tb ++ reqManual tb manual).filter same
+  let late := (reqSuccs tb).filter same
+  late.foldl (fun acc q => match acc with
+    | none => some q.2.2
+    | some g => some (mergeGuard g q.2.2)) (early.head?.map (·.2.2))
+
+/-- the table in which every successor carries the final guard of its transfer (so that no two requests for one
+    pair differ any more) -/
+def canonTable (tb : List (Nat × BTR)) (manual : List ManualEdge) : List (Nat × BTR) :=
+  tb.map (fun p => (p.1, { p.2 with succs := p.2.succs.map (fun s =>
+    match lastAddr p.2, (tb.lookup s.1).bind firstAddr with
+    | some a, some b => (s.1, (finalGuard tb manual a b).getD s.2)
+    | _, _ => s) }))
 
 end Assemble
 end Falcon
